@@ -10,7 +10,7 @@ from concurrent.futures import ProcessPoolExecutor
 V = "/verif"
 sys.path.insert(0, V + "/engine")
 OUT = "/scratch/corpus"
-CATS = ("call", "recv", "arg", "dec", "must", "mustq", "mustcall", "new", "fld", "set", "grd", "ord", "arm", "grdn")
+CATS = ("call", "recv", "arg", "dec", "must", "mustq", "mustcall", "new", "fld", "set", "grd", "ord", "arm", "grdn", "byp")
 
 
 def union_scope():
